@@ -185,10 +185,12 @@ func alphabet(nSeq int) []Op {
 		}
 	}
 	for s := 0; s < nSeq; s++ {
-		for _, p := range [][2]int{{0, -1}, {1, -1}, {1, 2}, {2, 4}, {0, 1}} {
+		for _, p := range [][2]int{{0, -1}, {1, -1}, {1, 2}, {2, 4}, {-1, 1}} {
 			ops = append(ops, Op{K: "rm", A: s, B: p[0], C: p[1]})
 		}
 	}
+	// seq_id < 0: "any sequence" (not used by the runner, but the model implements it)
+	ops = append(ops, Op{K: "rm", A: -1, B: 1, C: 2})
 	for a := 0; a < nSeq; a++ {
 		for b := 0; b < nSeq; b++ {
 			if a == b {
@@ -813,20 +815,24 @@ func fixedScenario(modelPath string) (lines []string, agree bool, seq1 []int, er
 // ---- main -----------------------------------------------------------------------------------------------
 
 func configs() []Config {
+	// cheapest first: the time budget is global, and what was completed is reported per configuration
 	if evid.Thorough() {
 		return []Config{
-			{Name: "empty-2seq", NCtx: 8, NSeq: 2, Depth: 6},
+			{Name: "nearfull-2seq-kvview", NCtx: 8, NSeq: 2, Depth: 5, Prefill: 32, Holes: []int{3, 10, 20}, UpdateEachStep: true},
+			{Name: "nearfull-2seq", NCtx: 8, NSeq: 2, Depth: 6, Prefill: 32, Holes: []int{3, 10, 20}},
 			{Name: "empty-3seq", NCtx: 8, NSeq: 3, Depth: 5},
-			{Name: "empty-2seq-kvview", NCtx: 8, NSeq: 2, Depth: 5, UpdateEachStep: true},
-			{Name: "nearfull-2seq", NCtx: 8, NSeq: 2, Depth: 5, Prefill: 32, Holes: []int{3, 10, 20}},
-			{Name: "nearfull-3seq", NCtx: 8, NSeq: 3, Depth: 4, Prefill: 32, Holes: []int{3, 10, 11, 20}},
+			{Name: "empty-2seq-kvview", NCtx: 8, NSeq: 2, Depth: 6, UpdateEachStep: true},
+			{Name: "nearfull-3seq", NCtx: 8, NSeq: 3, Depth: 5, Prefill: 32, Holes: []int{3, 10, 11, 20}},
+			{Name: "empty-2seq", NCtx: 8, NSeq: 2, Depth: 7},
 		}
 	}
 	return []Config{
-		{Name: "empty-2seq", NCtx: 8, NSeq: 2, Depth: 4},
-		{Name: "empty-3seq", NCtx: 8, NSeq: 3, Depth: 3},
-		{Name: "empty-2seq-kvview", NCtx: 8, NSeq: 2, Depth: 3, UpdateEachStep: true},
-		{Name: "nearfull-2seq", NCtx: 8, NSeq: 2, Depth: 4, Prefill: 32, Holes: []int{3, 10, 20}},
+		{Name: "nearfull-2seq-kvview", NCtx: 8, NSeq: 2, Depth: 4, Prefill: 32, Holes: []int{3, 10, 20}, UpdateEachStep: true},
+		{Name: "empty-3seq", NCtx: 8, NSeq: 3, Depth: 4},
+		{Name: "empty-2seq", NCtx: 8, NSeq: 2, Depth: 5},
+		{Name: "empty-2seq-kvview", NCtx: 8, NSeq: 2, Depth: 5, UpdateEachStep: true},
+		{Name: "nearfull-3seq", NCtx: 8, NSeq: 3, Depth: 4, Prefill: 32, Holes: []int{3, 10, 11, 20}},
+		{Name: "nearfull-2seq", NCtx: 8, NSeq: 2, Depth: 5, Prefill: 32, Holes: []int{3, 10, 20}},
 	}
 }
 
@@ -893,7 +899,7 @@ func main() {
 	r.SetDeadline(budget)
 
 	r.Rule("explicit-state search of the product (real llama.cpp KV cache via cgo, fakellama model): from the initial state of each configuration " +
-		"ALL sequences over the alphabet {Decode(s,k in 1..2) at the sequence's next position, KvCacheSeqRm(s,(0,-1)|(1,-1)|(1,2)|(2,4)|(0,1)), " +
+		"ALL sequences over the alphabet {Decode(s,k in 1..2) at the sequence's next position, KvCacheSeqRm(s,(0,-1)|(1,-1)|(1,2)|(2,4)|(-1,1)), KvCacheSeqRm(-1,1,2), " +
 		"KvCacheSeqCp(a,b,0,-1|1|2), KvCacheSeqAdd(s,(2,-1,-1)|(2,4,-1)|(1,3,-1)|(3,-1,-2)|(0,2,-1))} up to the configured length are executed, " +
 		"breadth first; a sequence is reached by replaying it from the initial state on a re-used context; states are deduplicated on the real " +
 		"cache's physical cell layout + head + pending-defrag flag; after every operation SeqRm's result, Decode's ErrKvCacheFull and the complete " +
